@@ -69,6 +69,20 @@ func c14Inputs() []c14Input {
 		_ = os.WriteFile(R+"/aug/main.go", []byte("package main\n\nfunc many(a, b, c, d, e, f, g, h, i, j, k, l int) {\n\tpanic(a)\n}\n\nfunc main() {\n\tmany(1, 2, 3, 4, 5, 6, 7, 8, 9, 10, 11, 12)\n}\n"), 0o644)
 		out = append(out, c14Input{name: "augmented-elided", text: []byte(g(1, "running", "main.many", "0x1, 0x2, 0x3, 0x4, 0x5, 0x6, 0x7, 0x8, 0x9, 0xa, ...", R+"/aug/main.go", 4) + g(2, "select", "main.many", "0x1, 0x2, 0x3, 0x4, 0x5, 0x6, 0x7, 0x8, 0x9, 0xb, ...", R+"/aug/main.go", 4)),
 			mkOpts: func() *Opts { return &Opts{NameArguments: true, GuessPaths: true, AnalyzeSources: true} }})
+		// many distinct standard-library lines in one goroutine: state that is filled in
+		// lazily per line on the first rendering gets forty first uses in one run
+		{
+			var b strings.Builder
+			b.WriteString("goroutine 1 [running]:\n")
+			for i := 0; i < 40; i++ {
+				fmt.Fprintf(&b, "fmt.f%d(0x%x)\n\t/ci/go/src/fmt/print.go:%d +0x1\n", i, i+1, 10+i)
+			}
+			b.WriteString("\n" + g(2, "select", "example.com/a.A", "0x2", "/ci/gp1/src/example.com/a/a.go", 4))
+			out = append(out, c14Input{name: "fs-many-stdlib-frames", text: []byte(b.String()),
+				mkOpts: func() *Opts {
+					return &Opts{NameArguments: true, GuessPaths: true, LocalGOROOT: R + "/goroot", LocalGOPATHs: []string{R + "/gp1"}}
+				}})
+		}
 		// a vendored frame that path guessing rebased onto the local GOPATH (its relative
 		// path, not only its import path, goes through the vendor directory)
 		out = append(out, c14Input{name: "fs-vendored-rebased", text: []byte(g(1, "running", "example.com/a/vendor/github.com/x/y.Do", "0x1", "/ci/gp1/src/example.com/a/vendor/github.com/x/y/y.go", 3) + strings.TrimSuffix(g(2, "select", "example.com/a.A", "0x2", "/ci/gp1/src/example.com/a/a.go", 4), "\n") + "created by example.com/a/vendor/github.com/x/y.Start in goroutine 1\n\t/ci/gp1/src/example.com/a/vendor/github.com/x/y/y.go:9 +0x1\n\n"),
